@@ -15,7 +15,7 @@ EXT = {
  "C08": "doc kind ellipsis; hostile descriptions in the sqlalchemy / json_schema formats.",
  "C10": "second choice point OrderedScan (which default-announcing phrase wins) with its own pinned configuration and scan inputs for three parsers x three styles.",
  "C11": "tokens TAB / NBSP / ' or ' / ' of ' and the adhoc-type entry point; each of the three doctrans rounds is its own monitored call.",
- "C12": "interface A2 (a strict extension of A) and D (a required parameter of a non-builtin type); equivalence up to the function format's documented `=None` normalisation.",
+ "C12": "interface A2 (a strict extension of A) and D (a required parameter of a non-builtin type, an Optional[str] with a default); equivalence up to the function format's documented `=None` normalisation; every run is also recorded as a trace and validated by TLC against Sync.tla's own action (TraceSync.tla), and that verdict decides KNOWN-FINDING vs VIOLATION.",
  "C13": "history variable prev: an earlier call from the same input in the same process.",
  "C14": "driver (f): generated SQLAlchemy models (class and Table, every keyword in every spelling), classes, argparse functions and JSON-schemas; entries documented beyond the signature are accepted by SigCovered.",
  "C15": "dashed underline lines in header and footer; section kinds both / params / ret; routes docstring (with the original text), ir (from the interface alone) and function (parse + emit); clause HeaderWhole.",
